@@ -74,6 +74,11 @@ class CallbackContext(Location, ActionCallback):
             callback.process(ctx, event, frame, arg)
 
     @property
+    def event(self) -> str:
+        """The event (line or call) that opened this context."""
+        return self.__event
+
+    @property
     def id(self) -> str:
         """The location id."""
         return "%s#%s" % (self.path, self.name)
